@@ -3,12 +3,72 @@
 import json, os, subprocess
 V = os.path.dirname(os.path.dirname(os.path.abspath(__file__)))
 
-BUILT = {
+T = "Trusts harness/ref (independent reference model written from the MAVLink serialization and signing guides, anchored at setup by the CRC-16/MCRF4XX check value, upstream golden byte vectors and the published MAVLINK_MESSAGE_CRCS table)"
+ALL = {
  # id: (level, technique, level text, level note, design ref)
  "C01": ("exploration", "reference-model differential monitor over generated and exhaustively swept frames",
-   "Held on every frame executed: the real frame.Writer/Reader are run over one-at-a-time exhaustive sweeps of each header byte, every payload length 0..255, boundary ids/timestamps, random frames and multi-frame streams, and compared byte for byte / field for field with an independent serializer. Exploration, not proof: the joint field space is sampled, each single-field sub-space is exhausted.",
-   "Trusts harness/ref (written from the serialization guide, anchored by upstream golden vectors) and crypto/sha256; frames violating their own invariants are out of scope.", "DESIGN.md §3 C01"),
+   "Held on every frame executed: the real frame.Writer/Reader are run over one-at-a-time exhaustive sweeps of each header byte, every payload length 0..255, boundary ids/timestamps, random frames and multi-frame streams through one reader, and compared byte for byte / field for field with an independent serializer. Exploration, not proof: the joint field space is sampled, each single-field sub-space is exhausted.",
+   T + "; frames violating their own invariants are out of scope.", "DESIGN.md §3 C01"),
+ "C02": ("exploration", "exhaustive CRC step sweep against a bitwise reference + justified-delivery monitor under systematic frame damage",
+   "All 2^24 (CRC state, byte) pairs of x25.X25 are executed against a bit-at-a-time reference (complete for the step function); the frame gate is observed on reference-built valid frames under every single-bit flip and other damage: every decoded delivery must be justified by a reference-valid frame in the stream, every undamaged frame must be delivered. Exploration over message types / values / damages.",
+   T + "; CRC collisions are justified by the reference and counted, not flagged.", "DESIGN.md §3 C02"),
+ "C03": ("exploration", "spec-derived layout reference over a complete enumeration of message definitions, per-field boundary probing",
+   "Every message struct of the 19 shipped dialects plus 15 user-defined shapes is enumerated; CRC_EXTRA and sizes are compared with the spec derivation and the published table, and every field position is probed with boundary values one at a time against the reference encoder/decoder in v1 and v2. Complete over shipped definitions, sampled over values.",
+   T + ".", "DESIGN.md §3 C03"),
+ "C04": ("exploration", "canonical-form reference differential, truncation sweeps, canary monitor around the caller's buffer",
+   "decode(encode(v)) is compared with the reference canonical form for generated values of every shipped type in both versions; every truncation amount, appended zeros/unknown tails and arbitrary payloads of every length are decoded by the real and the reference decoder; every decode runs on a slice with spare capacity inside a 0xA5 backing array. Exploration.",
+   T + "; panics are recovered per case and reported as violations.", "DESIGN.md §3 C04"),
+ "C05": ("exploration", "byte-accounting monitor on the reader, bounded-exhaustive streams, all segmentations, fault at every offset",
+   "Bounded-exhaustive byte streams (small alphabets containing the frame markers, long enough for complete frames) plus grammar-based streams are read under whole / 1-byte / random chunkings and all 2^(n-1) segmentations of short streams, with byte accounting around every call; a transport error is injected at every byte offset. Exhaustive up to the stated length bounds, sampled beyond.",
+   T + "; consumed = delivered - BufByteReader.Buffered().", "DESIGN.md §3 C05"),
+ "C06": ("exploration", "wire-image SHA-256 reference, every single-bit tamper, justified-delivery monitor; clock sandwich on writers",
+   "Keyed readers are observed on reference-signed frames and on every single-bit flip / forgery / wrong-key variant placed after a valid frame on the same reader; every delivery must be justified by a reference-signed frame. Writers (frame.Writer, streamwriter, Node) are observed on the wire: flag, link id, timestamp sandwich, signature by the reference formula.",
+   T + "; crypto/sha256 is the trusted base.", "DESIGN.md §3 C06"),
+ "C07": ("exploration", "sequential window model over bounded-exhaustive timestamp histories; clock sandwich on outgoing timestamps",
+   "Every accept/refuse decision of a keyed reader is compared with a sequential model over all histories of a 12-value boundary alphabet to depth 4-5 on fresh readers and over long random histories relative to the running maximum; outgoing timestamps of three writer APIs are checked against a before/after reading of the harness clock and for monotonicity per link.",
+   "Wall clock is not stepped backwards (not injected). " + T, "DESIGN.md §3 C07"),
+ "C08": ("exploration", "multi-hop forwarding monitor: reference checksum + next-hop acceptance, Node router with edit/FixFrame",
+   "Frames are forwarded over 1-4 hops of real reader->writer pairs and through a real Node router; without dialect bytes must be identical, with dialect (canonical and non-canonical encodings of many message types) the forwarded frame must keep its header, carry the reference checksum of the bytes sent and decode identically at a next-hop reader; edited frames fixed with FixFrame must validate at a next hop with dialect and key.",
+   T + "; signature survival of dialect-re-encoded frames is not demanded (statement promises checksum validity).", "DESIGN.md §3 C08"),
+ "C09": ("exploration", "reference parse of outgoing streams, per-link sequence automaton",
+   "Write histories over version x ids x key configurations through streamwriter, frame.Writer.WriteMessage and Nodes with 1-6 channels (application writes, heartbeats and stream requests on the same counter) are parsed by the reference; identity, flags, checksum, v1 base size and a sequence automaton are asserted per link; initialization refusals enumerated.",
+   T + "; a sequence number consumed by a refused write is tolerated and counted.", "DESIGN.md §3 C09"),
+ "C10": ("exploration", "per-channel event automaton + unique-id sequence comparison under hook-perturbed schedules",
+   "Seeded scenarios (custom, TCP, UDP, fake serial channels; valid / bad-checksum / bad-signature / junk input; sessions ending and reopening; slow and bursty consumers; concurrent writers) are run with schedule perturbation at the hook points; the consumer runs an INIT->OPEN->CLOSED automaton per channel and the delivered unique-id sequence is compared with what was fed.",
+   "Histories recorded at the client boundary (Events(), transports). Liveness judged with the no-progress criterion, otherwise inconclusive.", "DESIGN.md §3 C10"),
+ "C11": ("exploration", "offline exactly-once / isolation / FIFO checker over unique-id write histories with flow control",
+   "Every Write* call and every transport Write is logged with unique ids; per-channel captures are tokenised by the reference and checked offline for torn frames, duplicates, leaks (To/Except/closed/foreign), losses on channels open for the whole call, and per-goroutine FIFO, under hook-perturbed schedules with flow control keeping the backlog below 64.",
+   "Quiescence decided with VerifBacklog()==0 and unchanged counters; " + T, "DESIGN.md §3 C11"),
+ "C12": ("fault_enumeration", "Close injected at every hook point x occurrence; deadlock / goroutine-leak / port / close-count monitors",
+   "For scripted scenarios over every endpoint kind, Node.Close is placed at each reached hook point and occurrence (holding that goroutine), with running or stopped consumers and concurrent writers; monitors check that Close returns (no-progress + goroutine-dump criterion), no library goroutine survives, ports can be re-bound, custom transports closed exactly once, the event channel ends, writes return without panic, failed Initialize leaves nothing behind.",
+   "Fault model: transports unblock on Close. Hook points are the enumerated placement sites.", "DESIGN.md §3 C12"),
+ "C13": ("fault_enumeration", "blocked / failing / unencodable writes at every position; isolation and recover-or-close oracle",
+   "Transport writes are blocked or failed at the j-th call and unencodable items inserted at every position of write histories; other channels must still satisfy the fan-out conditions and keep delivering events, the stalled channel's backlog is bounded and order-preserving, and after a failure the channel is either closed with a close event or keeps emitting later valid writes.",
+   "Custom and TCP endpoints; quiescence by no-progress criterion.", "DESIGN.md §3 C13"),
+ "C14": ("fault_enumeration", "fault sequences per endpoint kind; lifecycle automaton; deadline recorder on timednetconn",
+   "Read errors, EOF, resets and refused connects are injected at the j-th operation for TCP/UDP servers and clients, serial (fake opener) and custom endpoints, singly and in sequences; close events must carry the cause, client endpoints must reconnect after the delay and never hold two channels, servers keep accepting, idle channels are closed and active ones are not, and every Read/Write of timednetconn is preceded by a freshly armed deadline.",
+   "Reconnect period shortened through the verif hook; idle verdicts only when the harness's own send gaps stayed small, otherwise inconclusive.", "DESIGN.md §3 C14"),
+ "C15": ("exploration", "Go race detector over node workloads and an API mix",
+   "All node workloads plus a dedicated API mix (six Write* flavours from several goroutines, forwarding from the consumer, FixFrame, fast heartbeats, stream requests from several channels, channels opening and closing, Close racing with everything) run under -race with several GOMAXPROCS values; any report touching library code is a violation.",
+   "Absence of reports on the schedules run is not absence of races; halt_on_error=0, reports de-duplicated by outermost library entry points.", "DESIGN.md §3 C15"),
+ "C16": ("exploration", "wire-capture counters and content checks; tick upper bound and median spacing",
+   "Per-channel wire captures are parsed by the reference: heartbeat fields, a sound upper bound on their number (a ticker never fires early), median spacing, every open channel served, zero when disabled / dialect lacks the standard message; stream requests: exactly the seven streams at the configured rate to the sender on its channel, one event, no repeat, nothing for other autopilots or messages.",
+   "Spacing judged on the median with a re-run at a larger period before a violation is declared.", "DESIGN.md §3 C16"),
+ "C17": ("exploration", "complete enumeration of shipped dialects + generated identity/constant probe program",
+   "All 19 dialect packages are enumerated: Initialize, id uniqueness, GetMessage over a large id range (thorough: every 24-bit id), size limit, published CRC_EXTRA table, cross-dialect value passing; a probe program generated from a source scan asserts Go type identity of every alias and one value per constant name; malformed / duplicate user dialects (also through re-initialisation) must be rejected.",
+   T + "; the source scan only enumerates declarations, every assertion is executed.", "DESIGN.md §3 C17"),
+ "C18": ("translation_validation", "generate -> build -> run probe vs XML-derived reference (translation validation by execution)",
+   "Seeded valid dialect XML (with include graphs) is fed to the real cmd/dialect-import built from the tree; the generated packages are compiled into a generated probe program whose ids, field counts, CRC_EXTRA, v1/v2 payloads of sample values, enum constants and dialect version are compared with an independent derivation from the XML; a second generation must be byte-identical; inexpressible definitions must not initialize.",
+   "Reference derivation ref.LayoutFromXML independent of pkg/conversion and pkg/message; link mode and URL definitions not exercised.", "DESIGN.md §3 C18"),
+ "C19": ("exploration", "generated probe program over every shipped and freshly generated enum type",
+   "Every enum type defined in the shipped dialect packages and every enum of freshly generated dialects is round-tripped through MarshalText/UnmarshalText/String over all constants, boundary values, random values and flag combinations, and rejection of malformed texts is checked.",
+   "The source scan only enumerates enum types and constant names; every assertion is executed against the compiled packages.", "DESIGN.md §3 C19"),
+ "C20": ("fault_enumeration", "reference log image; every cut offset; k-th write failure; unencodable entry at every position",
+   "Write histories are compared byte for byte with a reference log image after every entry, read back, cut at every offset (crash points), written through a writer failing at every k-th call, and interleaved with unencodable entries at every position; the reader must return exactly the complete entries then errors forever.",
+   T + "; long logs (> 4 KiB) included to cross the reader's buffer.", "DESIGN.md §3 C20"),
 }
+BUILT_IDS = ["C01","C02","C03","C04","C05","C06","C07","C08","C09","C17","C18","C19","C20"]
+BUILT = {k: ALL[k] for k in BUILT_IDS}
 
 NOT_YET = {}
 
